@@ -24,7 +24,7 @@ ENTRY = {
     'note': ('Tie: Gen/SrcFacts (alignment = 4), Gen/StreamGen via C01Tie.tie_padding (padding expression of _stream_files, yielded as zero '
              'bytes); both streams of every model-sized case are chunked by the Gallina model (vm_compute) and by the Python adapter over '
              'src/adapters.cpp recompiled from the working tree under random segmentations; Model/Clmul.keyf = compiled key() = the Python keyf of '
-             'the oracles on sampled windows; Resync.dominantb = the Python dominance test; real snapshots [a,F], [b,F] through Repository.snapshot; sessions in which ONE adapter object chunks several (stream, key) jobs sequentially / interleaved, directly and through RepositoryProps.chunkify with the private part replaced, each compared with a new adapter object and the model. '
+             'the oracles on sampled windows; Resync.dominantb = the Python dominance test; real snapshots [a,F], [b,F] through Repository.snapshot; sessions in which one or several adapter objects (and RepositoryProps around them) chunk several (stream, key) jobs sequentially / interleaved / started at different times under a random advance schedule, each compared with a new adapter object run alone and with the model; one-block hand-overs larger than every size constant of the source. '
              'Keys that differ only in low-order bits of k1 give identical boundaries with overwhelming probability (consequence of '
              'C11_keyf_k1_xor); with min close to max the cut is forced and no key matters - both are outside what is claimed.'),
     'trusted_base': COMMON_TB + ['pybind11 stand-in /verif/native/shim and ctypes front /verif/native/pyshim (B3)',
